@@ -13,7 +13,7 @@ def WGT(i, j):
     return 16.0 / 27.0 if i == j else 2 * (16.0 / 27.0)
 '''
 
-contract('gnpy.core.science_utils.NliSolver._psi', props=['C03', 'C01', 'C02'],
+contract('gnpy.core.science_utils.NliSolver._psi', props=['C03', 'C01', 'C02'], timeout_s=40,    # (a refutation of closed_form needs ~8 s alone: room for a loaded machine)
          prop_clauses={'C01': ['non_negative', 'nli_nonneg', 'nonneg'], 'C02': ['non_negative', 'nli_nonneg', 'nonneg']},
          params={'df': mat('n'), 'baud_rate': vec('n'), 'beta2': vec('n'), 'effective_length': vec('n'),
                  'asymptotic_length': vec('n')}, spec=SPEC_GN,
